@@ -180,7 +180,7 @@ def typecode(msg: str) -> Optional[int]:
     Returns:
         int: type code number
     """
-    if df(msg) not in (17, 18):
+    if df(msg) not in (17, 18) or len(msg) != 28:
         return None
 
     tcbin = hex2bin(msg[8:10])
